@@ -44,6 +44,10 @@ Second round (harness/c16gen.py):
 All oracles and the model correspondence run on all of them; json-eval, bare-id and selector additionally on a copy of
 the template data whose values are replaced by the tag 'subset:flat position' (replication factors keep their value):
 the comparison then tells WHICH node was selected even when neighbouring values are equal or missing.
+Third round (harness/c16hist.py): histories on ONE reused DataQuerent / BufrMessageQuerent / NodePathParser over groups of
+3-4 of the messages above (valid queries, queries failing at evaluation time, expressions rejected in every state of the
+parser machine with 0-4 buffered slice elements, the same expression on consecutive messages): every answer against a
+fresh object and against the model (`query`; the parser object of the history theorems: driver op `parser-history`).
 Templates the wiring pass does not understand (open findings of C09/C07: an associated field in force over
 203 / 206 / marker / 008023, resumed class-33 runs) are excluded by the structural signatures of C09.
 """
@@ -57,6 +61,7 @@ import zlib
 
 from harness import core, tables_io
 from harness import c16gen as G
+from harness import c16hist as H
 from harness import coder_io as C
 from harness import coderprops as P
 from harness import views_io as V
@@ -74,11 +79,22 @@ META = dict(
          'forms for [:], [k], [-k], [a:b]); an `@` selector restricts the result of the unselected query to exactly the '
          'subsets it designates; filter_for_entities under a child/attribute step returns the matches with the slice applied '
          'in document order for every slice of the path language (negative steps included); on a shared tree with equal '
-         'labels the compressed query equals the uncompressed one subset by subset. Of "query = evaluation over the nested '
-         'JSON" and "bare id = flat filter" only the first stages are proved (_partial: one step from the top level; trees '
-         'without composite nodes); the full statements are decided case by case: the correspondence run compares '
+         'labels the compressed query equals the uncompressed one subset by subset. "query = evaluation over the nested '
+         'JSON" is proved in full for one subset, for a whole uncompressed message and (after fix F16c, the model is the fixed '
+         'code) for a whole compressed message, the empty selection included (C16_query_eq_eval_compressed; the one selector '
+         'outside its hypothesis, @[k] beyond the last subset, fails on both sides: C16_query_compressed_subset_out_of_range); '
+         '"bare id = flat filter" in full for ordinary elements on wired trees. The querent is modelled as the long-lived '
+         'OBJECT it is (parser attributes, reset(), what a raising handler leaves behind): C15_parse_history_independent / '
+         'C16_query_history_independent prove by induction over an unbounded history of earlier queries (accepted, rejected '
+         'at any point, failing at evaluation time, any mix of messages) and for every state of the object that each answer '
+         'is a function of (message, expression) alone; a parser whose reset() forgets the slice buffer is shown NOT to be '
+         '(C15_reset_must_clear_slice_buffer). The correspondence run compares '
          'Spec.evalPath on the model\'s nested JSON with the model query and the model with the implementation on every '
-         'query, and the oracle compares the implementation with an evaluator over its own nested JSON, its flat lists '
+         'query, runs histories of 70 (quick) / 110 operations on ONE DataQuerent / BufrMessageQuerent / NodePathParser over groups '
+         'of 3-4 messages (the two storage forms of one template with different values and counts, other templates): valid '
+         'queries, queries failing at evaluation time, expressions rejected in every state of the parser machine with 0-4 slice '
+         'elements buffered, each answer against a fresh object and against the model, results handed out earlier re-read at the '
+         'end; and the oracle compares the implementation with an evaluator over its own nested JSON, its flat lists '
          'filtered by label, post-hoc subset selection, the compressed/uncompressed and compiled/plain decodings, on '
          'generated messages, the C09 shapes and the sample files x all existing paths up to depth 6 x slices x selectors. '
          'Slices are drawn from the grid relative to the number n of matches at the step (start, stop in none, -(n+1)..n+1; step in '
@@ -89,8 +105,10 @@ META = dict(
     technique='Lean 4 theorems (structural induction over the node tree / the path, list reasoning about enumerate-filter-'
               'slice-sort) + checked model/implementation correspondence + property oracle on the implementation '
               '(query vs evaluator over the implementation\'s own nested JSON)',
-    note='The model is the code after fixes F16a (replications filtered repetition by repetition) and F16b (factor before '
-         'members in descendant filtering). Negative int slices cannot come out of the parser (C15) and are modelled for '
+    note='The model is the code after fixes F16a (replications filtered repetition by repetition), F16b (factor before '
+         'members in descendant filtering) and F16c (query_compressed_data returns the empty result when no subset is selected; '
+         'prepared as notes/C16_fix_empty_selection_compressed.diff, on a tree without it the disagreement is reported as the '
+         'known finding F16c). Negative int slices cannot come out of the parser (C15) and are modelled for '
          'components only. The early return of filter_for_entities is modelled by its result. Value comparison model vs '
          'implementation uses the 2-ulp rule of C01; oracle comparisons on the implementation alone are exact.',
 )
@@ -184,15 +202,10 @@ def eval_message(nested, node_path):
 
 # ---------------------------------------------------------------------------------------------
 # implementation side
-_parser = None
-
-
 def parse_path(expr):
-    global _parser
-    if _parser is None:
-        from pybufrkit.dataquery import NodePathParser
-        _parser = NodePathParser()
-    return _parser.parse(expr)
+    """the parsed expression (a fresh parser every time: what the harness reads must not depend on what was parsed before)"""
+    from pybufrkit.dataquery import NodePathParser
+    return NodePathParser().parse(expr)
 
 
 def impl_query(msg, expr):
@@ -476,7 +489,7 @@ def evaluate(task):
     -> dict(skip=..)| dict(findings=[..], queries=[..], counts={..})"""
     try:
         t0 = time.time()
-        r = _evaluate(task)
+        r = H.evaluate(task) if task.get('hist') else _evaluate(task)
         r['_time'] = time.time() - t0
         return r
     except core.MachineryError as e:
@@ -524,10 +537,11 @@ def _evaluate(task):
     findings = []
 
     def finding(kind, stage, why, expr):
-        # F16c (open): compressed data, a selector that designates no subset, a path that raises: the nodes are
-        # filtered before the (empty) loop over the subsets, so the query raises where the uncompressed one is empty
+        # F16c (fix prepared: notes/C16_fix_empty_selection_compressed.diff; the model is the fixed code): compressed
+        # data, a selector that designates no subset, a path that raises: the unfixed code filters the nodes before the
+        # (empty) loop over the subsets, so the query raises where the uncompressed one (and the model) is empty
         flag = False
-        if expr and comp and stage in ('json-eval', 'compressed', 'model-vs-spec', 'selector'):
+        if expr and comp and stage in ('json-eval', 'compressed', 'model', 'selector'):
             try:
                 flag = select_subsets(parse_path(expr).subset_slice, n_sub) == [] and isinstance(impl.get(expr), str)
             except Exception:  # noqa
@@ -991,6 +1005,30 @@ def run(ctx):
         tasks.append((dict(b=raw, ids=ids, seed='%s:file:%s' % (seed0, os.path.basename(path)), budget=40 if quick else 160,
                            alt=None, compiled=True, corpus=True, max_values=max_values, grid=site_sample), ids, 'corpus',
                       os.path.basename(path)))
+    # -- histories on one reused DataQuerent / BufrMessageQuerent / NodePathParser (harness/c16hist.py): groups of
+    #    messages taken from the tasks above: the two storage forms of one template (built with different values,
+    #    replication counts and subset counts) + messages of other templates
+    rng = ctx.rng('histories')
+    by_ids = {}
+    small = []
+    for (t, ids, tag, name) in tasks:
+        if t.get('part', (0, 1))[0] != 0 or len(t['b']) > 6000:
+            continue
+        it = dict(b=t['b'], ids=ids, corpus=bool(t.get('corpus')), file=name)
+        by_ids.setdefault(tuple(ids), []).append(it)
+        small.append(it)
+    pairs = [v for v in by_ids.values() if len(v) >= 2]
+    rng.shuffle(pairs)
+    n_groups = 40 if quick else 400
+    hist_tasks = []
+    for k in range(n_groups):
+        if not small:
+            break
+        items = list(pairs[k % len(pairs)][:2]) if pairs and k % 4 != 3 else []
+        while len(items) < (3 if k % 2 else 4):
+            items.append(rng.choice(small))
+        hist_tasks.append(dict(hist=True, items=items, seed='%s:hist:%d' % (seed0, k), n_ops=70 if quick else 110,
+                               weight=2 * 10 ** 5))
     # -- evaluate
     t_build = time.time() - ctx.t0
     t0 = time.time()
@@ -998,13 +1036,16 @@ def run(ctx):
     try:
         # big ones first
         order = sorted(range(len(tasks)), key=lambda i: -(tasks[i][0].get('weight') or len(tasks[i][0]['b'])))
-        results = pool.map(evaluate, [tasks[i][0] for i in order], chunksize=1)
+        results = pool.map(evaluate, hist_tasks + [tasks[i][0] for i in order], chunksize=1)
     finally:
         pool.terminate()
+    hist_results, results = results[:len(hist_tasks)], results[len(hist_tasks):]
     by = dict(zip(order, results))
     GRID_DONE.clear()
     if os.environ.get('VERIF_TIMING'):
         print('timing: build %.1fs, evaluation %.1fs, worker time %.1fs' % (t_build, time.time() - t0, sum(r.get('_time', 0) for r in results)))
+        print('  histories    %4d tasks %7.1fs %7d operations' % (len(hist_tasks), sum(r.get('_time', 0) for r in hist_results),
+                                                                  sum(r.get('n_ops', 0) for r in hist_results)))
         agg = {}
         for i in by:
             a = agg.setdefault(tasks[i][2].split(':')[0], [0, 0, 0])
@@ -1017,6 +1058,8 @@ def run(ctx):
             print('  task %s part %s: %.1fs, %d queries' % (tasks[i][2], tasks[i][0].get('part'), by[i].get('_time', 0), len(by[i].get('queries', []))))
     for i, (task, ids, tag, name) in enumerate(tasks):
         absorb(ctx, task, by[i], ids, tag, name)
+    for task, res in zip(hist_tasks, hist_results):
+        H.absorb(ctx, task, res)
     # the systematic slice space: which (step kind, n) were covered by a whole grid
     missing = []
     for kind_ in ('/', '.', '>', '@'):
@@ -1061,6 +1104,25 @@ def replay(ctx, path):
     rep = body['replay']
     if 'undischarged' in rep:
         print('replay: proof obligations are re-checked by the audit above')
+        return
+    if 'history' in rep:
+        items = []
+        for it in rep['items']:
+            if it.get('hex'):
+                b = bytes.fromhex(it['hex'])
+            else:
+                b = None
+                for d in ('data', 'benchmark_data'):
+                    p = os.path.join(core.REPO, 'tests', d, it.get('file') or '?')
+                    if os.path.exists(p):
+                        b = K9.corpus_item(p)
+                if b is None:
+                    raise core.MachineryError('replay: message of the history not available')
+            items.append(dict(b=b, ids=it['ids'], corpus=it.get('corpus', False), file=it.get('file')))
+        task = dict(hist=True, items=items, seed='replay', n_ops=0, history=rep['history'])
+        res = evaluate(task)
+        print('replay: %s' % (json.dumps(res.get('reports', res), default=repr)[:1500] or 'no finding'))
+        H.absorb(ctx, task, res)
         return
     if 'pyslice' in rep:
         a, b, c, n = rep['pyslice']
